@@ -126,6 +126,10 @@ package db
 //@   noframe
 //@   let S0 = old(DbState(backend))
 //@   requires forall k in [0, len(changes)) :: dbCfg(S0, changes[k].Alias) != 0
+// every listed entity is generated from the effective (profile-merged) configuration planning produced: it is stored
+// under the entity's alias right before its artifacts are generated (C08: merged extensions reach the certificate, also
+// when a certificate is replaced)
+//@   atcall @C08,C01 gopki/generator/db.GenerateArtifacts called("invoke:gopki/generator/db.Database.PutConfig", 1) && callres("invoke:gopki/generator/db.Database.PutConfig", 0, 0) == nil && callarg("invoke:gopki/generator/db.Database.PutConfig", 0, 1) == alias && callarg("invoke:gopki/generator/db.Database.PutConfig", 0, 2) == change.EffectiveConfig
 //@   ensures @C10 forall p string :: FsWrites(0)[p] ==> (old(FsWrites(0))[p] || (exists k in [0, len(changes)) :: p == dbArtPath(S0, old(changes[k]).Alias)))
 //@   ensures @C10,C11 err == nil ==> n == countGen(old(seq(changes)), len(changes))
 //@   loop 1
